@@ -270,6 +270,16 @@ func (w *Worker) account(c *SimCase, st *CaseStats) {
 	if w.hashes != nil {
 		fmt.Fprintf(w.hashes, "P %s\n", hashStr(c.Src))
 	}
+	ft := c.Prog.Features()
+	for name, n := range map[string]int{"split": ft.Split, "drop": ft.Drop, "fwd": ft.Fwd, "multi_name_provider": ft.MultiProv, "shift": ft.Shift, "cast": ft.Cast,
+		"exec": ft.Exec, "explicit_provider_def": ft.ExplicitProv, "call_with_2+_args": ft.MultiArgCall, "call_with_self_arg": ft.SelfArgCall, "three_way_choice": ft.ThreeWay} {
+		if n > 0 {
+			o.Probes["programs_with_"+name]++
+		}
+	}
+	if ft.Modes > 1 {
+		o.Probes["programs_with_two_modes"]++
+	}
 	if c.RenInfo != nil {
 		o.Extra["ren_colliding_binder_spellings"] += c.RenInfo.Collisions
 		if c.RenInfo.Collisions > 0 {
